@@ -535,6 +535,8 @@ pub fn analyze(sc: &Scenario, out: &RunOut) -> Analysis {
                     vec![Conn::To { node: *port, mode: Mode::Plain }]
                 } else if *node == SOURCE {
                     if q { spec.qsrcs[*port].clone() } else { spec.srcs[*port].clone() }
+                } else if q && *port >= UNI_BASE {
+                    vec![spec.nodes[*node].unis[*port - UNI_BASE]]
                 } else if q {
                     spec.nodes[*node].reqs[*port].clone()
                 } else {
@@ -582,7 +584,13 @@ pub fn analyze(sc: &Scenario, out: &RunOut) -> Analysis {
                     Some(Ev::QryS { val, .. }) => *val,
                     _ => 0,
                 };
-                let conns = &spec.nodes[*node].reqs[*port];
+                let uni_conn;
+                let conns: &[Conn] = if *port >= UNI_BASE {
+                    uni_conn = [spec.nodes[*node].unis[*port - UNI_BASE]];
+                    &uni_conn
+                } else {
+                    &spec.nodes[*node].reqs[*port]
+                };
                 let exp: Vec<(usize, i64)> = expected_replies(conns, val)
                     .into_iter()
                     .filter(|(nd, _)| nstate(spec, *nd) != NState::Dropped)
